@@ -11,7 +11,13 @@ PROP = dict(
          'nq:push_c1,push_c2,pop_c1,pop_c2,push_race_c1', 'scq:enq_c1_f0,enq_c2_f0,deq_c1_f0,deq_c2_f0,enq_overtaken_c2,deq_stale_c2', 'nbq:push_c2,pop_c2',
          'hp:acq_k2,acq_k3', 'stampit_guard:local,global', 'stampq:push,remove,mid_push,mid_remove_1,mid_remove_2a,mid_remove_2b',
          'msq:push,pop_node,try_pop_e2e,pop_e2e', 'ram:push_e1,push_e2,pop_e1_r1,pop_e2_r0,pop_e2_r1', 'kbq:push_k1_s123,push_k2_s123,pop_k1_s123,pop_k2_s123,find_index_E_k3,find_index_N_k3',
-         'kfq:push_k1,push_k2,pop_k1,pop_k2,advance_head_seq_k2,advance_tail_seq_k2', 'he:g_acquire_K2,g_acquire_if_equal_K2'],
+         'kfq:push_k1,push_k2,pop_k1,pop_k2,advance_head_seq_k2,advance_tail_seq_k2', 'he:g_acquire_K2,g_acquire_if_equal_K2',
+         # guard acquisition / release / reclaim of the epoch based schemes, QSBR and the hazard pointer / era scans: the SEQ runs of these units keep the original loops
+         # (loops over the thread list and the retire lists, unwound completely for the shape) - their unwinding assertions are termination facts
+         'ebr:g_acquire,g_acquire_if_equal,g_reset,g_reclaim,g_dtor,enter_none,enter_eager,enter_lazy,leave_none_always,leave_eager_always,leave_lazy_always,update_global_epoch,scan_all,scan_n1,scan_n2,add_retired',
+         'qsbr:g_acquire,g_aie,g_reset,g_reclaim,enter,leave,quiescent,try_update,adopt,retire',
+         'hpscan:hp_reclaim,he_reclaim,hp_scan,he_scan,hp_gather,he_gather',
+         'lfrc:decrement_solo,g_acquire_solo,g_aie,g_reset,g_reclaim,add_nodes_solo,op_delete'],
   level='other',
   unwind_is_obligation=True,
   strict_obligations=True,
@@ -22,7 +28,8 @@ PROP = dict(
               'with no interference; every unwinding assertion is an obligation of this property. Loop-free functions are static facts (loop_free). Retry loops that are cut by invariants in INT mode '
               'carry no termination information and are not counted here.',
   assumptions=['reachable states are contained in the mid-operation invariants the units range over (argued per unit, not machine checked)',
-               'guard acquisition stubs terminate (their own loops are under contract in the reclaimer units: hp acq runs here; ebr/qsbr/lfrc acquire loops are cut by invariants and contribute no termination fact)',
+               'guard acquisition stubs used by the data-structure units terminate: their own loops are under contract in the reclaimer units (hp, he, ebr, qsbr, lfrc, stampit_guard/stampq runs listed here; lfrc: dedicated *_solo runs with the original retry loops)',
+               'qsbr ensure_has_control_block (first use of a thread: registers its control block) and lock_free_ref_count free_list::pop (operator new re-using a node) are cut by invariants only and contribute no termination fact',
                'stamp_it thread_order_queue push/remove: solo termination from quiescent queues of <= 3 blocks and from the enumerated stalled-pusher / stalled-remover states (unit stampq), not from arbitrary reachable states', 'shapes as in the owning units'],
   trusted_base=[],
 )
